@@ -33,10 +33,10 @@ BUDGET = {
     'thorough': dict(examples=2000, time_s=3300, shrink=True, shrink_cap_s=240),
 }
 
-SAMPLE_KINDS = ['ok_mef', 'ok_mef_wide', 'ok_rfi', 'ok_one', 'ok_400', 'ok_float', 'ok_float2', 'missing', 'missing_isdir', 'missing_notdir', 'small', 'gf_neg', 'gf_big', 'gf_just_above', 'gf_just_below', 'bad_units', 'beads_failed',
+SAMPLE_KINDS = ['ok_mef', 'ok_mef_wide', 'ok_rfi', 'ok_one', 'ok_400', 'ok_float', 'ok_float2', 'missing', 'missing_isdir', 'missing_notdir', 'missing_case', 'small', 'gf_neg', 'gf_big', 'gf_just_above', 'gf_just_below', 'bad_units', 'beads_failed',
                 'no_curve', 'other_instrument', 'other_instrument_lc', 'other_amp', 'other_volt', 'other_volt0', 'bad_units_sub']
 HEALTHY = ('ok_mef', 'ok_mef_wide', 'ok_rfi', 'ok_one', 'ok_400', 'ok_float', 'ok_float2')
-BEAD_KINDS = ['ok', 'missing', 'missing_isdir', 'small', 'gf_neg', 'gf_big', 'unequal_mef', 'unequal_mef_mid']
+BEAD_KINDS = ['ok', 'missing', 'missing_isdir', 'missing_case', 'small', 'gf_neg', 'gf_big', 'unequal_mef', 'unequal_mef_mid']
 
 _FIX = {}
 
@@ -95,6 +95,8 @@ def sample_row(kind, sid):
         r.update(file='cells_f2.fcs', units={'FL1-H': 'RFI', 'FL2-H': 'au'}, beads=None, gate_fraction=0.3)
     elif kind == 'missing':
         r.update(file='no_such_file.fcs')
+    elif kind == 'missing_case':
+        r.update(file='CELLS_A.FCS')                   # no such file: names are compared exactly (cells_a.fcs is another file)
     elif kind == 'missing_isdir':
         r.update(file='.')                             # the cell names a folder, not a file
     elif kind == 'missing_notdir':
@@ -234,6 +236,8 @@ def beads_table(kinds):
             r['File Path'] = 'no_beads_here.fcs'
         elif k == 'missing_isdir':
             r['File Path'] = '.'
+        elif k == 'missing_case':
+            r['File Path'] = 'Beads1.FCS'
         elif k == 'unequal_mef_mid':
             # three calibrated channels; only the middle one has another number of values
             r['FL2-H MEF Values'] = ', '.join(lad.split(', ')[:-1])
